@@ -10,8 +10,8 @@ allocation counter. No parent / document pointers, no caches, no dirty flag, no 
 -/
 import PsdVerif.Model.TreeState
 
-namespace PsdVerif.Tree.Spec
-open PsdVerif PsdVerif.Tree
+namespace PsdVerif.TreeSt.Spec
+open PsdVerif PsdVerif.TreeSt
 
 structure S where
   next : Nat
@@ -127,11 +127,11 @@ def runLists : S → List Op → Except Err S
     | .error e => .error e
     | .ok (t', _) => runLists t' ops
 
-end PsdVerif.Tree.Spec
+end PsdVerif.TreeSt.Spec
 
-namespace PsdVerif.Tree
+namespace PsdVerif.TreeSt
 
 /-- the abstraction: forget everything but the lists -/
 def abs (s : State) : Spec.S := { next := s.next, kind := s.kind, lists := s.children }
 
-end PsdVerif.Tree
+end PsdVerif.TreeSt
